@@ -7,7 +7,8 @@ Record case := {
   c_spaces : list N; c_letters : list N; c_digits : list N;    (* code points >= 128 of the case *)
   c_res : pres (list node);                                     (* parser.Read *)
   c_printed : option str;          (* canonical print of the result by the harness's printer *)
-  c_rt : option (pres (list node)) (* parser.Read of the printed text *)
+  c_rt : option (pres (list node)); (* parser.Read of the printed text *)
+  c_src : option (list node)       (* the tree c_inp is the canonical print of, when the harness built one *)
 }.
 
 Definition in_tab (t : list N) (c : N) : bool := existsb (N.eqb c) t.
@@ -35,7 +36,8 @@ Definition agrees (c : case) : bool :=
   && match c_printed c, c_rt c with
      | Some p, Some r => pres_eqb (model_read c p) r
      | _, _ => true
-     end.
+     end
+  && match c_src c with Some t0 => str_eqb (print_nodes t0) (c_inp c) | None => true end.
 Definition mismatches (cs : list case) : list N := find_idx (fun c => negb (agrees c)) cs.
 
 (* post-conditions of an accepted tree *)
@@ -60,6 +62,14 @@ Definition monitor (c : case) : list N :=
          match r with POk t' => if nodes_eqb t t' then [] else [3%N] | _ => [3%N] end
        else []
    | _, _ => []
+   end) ++
+  (* the same for a tree the harness built itself: reading its canonical print returns it *)
+  (match c_src c with
+   | Some t0 =>
+       if forallb expressible t0 && forallb (post (in_tab (c_letters c)) (in_tab (c_digits c)) 258) t0 then
+         match c_res c with POk t => if nodes_eqb t0 t then [] else [3%N] | _ => [3%N] end
+       else []
+   | None => []
    end).
 Definition monitor_failures (cs : list case) : list (N * list N) :=
   let fix go (i : N) (l : list case) :=
